@@ -141,7 +141,7 @@ func (e *env) run(t *testing.T, sc *scenario) {
 	if _, err := e.st.AddPod(ctx, "p", ""); err != nil {
 		t.Fatal(err)
 	}
-	nodes := map[string]bool{}
+	nodes := map[string]bool{"n1": true}
 	for _, a := range sc.Adds {
 		nodes[a.Node] = true
 	}
@@ -191,6 +191,126 @@ func (e *env) run(t *testing.T, sc *scenario) {
 	}
 }
 
+// streams observes WorkloadStatusStream (etcd store): for up to maxStreams accepted filters a stream
+// is opened, a sentinel workload created under the filter's own names tells when the watch is
+// established and serves as a fence, then every workload's status is set once.  No sleeps: the
+// outcome does not depend on timing (events of one watch arrive in revision order).
+func (e *env) streams(t *testing.T, sc *scenario, maxStreams int) {
+	ctx, cancel := context.WithTimeout(context.Background(), 60*time.Second)
+	defer cancel()
+	for _, a := range sc.Adds {
+		if !a.Acc {
+			return // parseStatusKey needs four key elements; names outside validation are not streamed
+		}
+	}
+	type stream struct {
+		q        *query
+		sentinel *types.StatusMeta // poked until the watch delivers it: the stream is established
+		fence    *types.StatusMeta // set once after all statuses: everything before it has been delivered
+		ch       chan *types.WorkloadStatus
+		got      map[string]bool
+	}
+	counter := 0
+	setStatus := func(m *types.StatusMeta) {
+		counter++
+		m.Extension = []byte(fmt.Sprintf("%d", counter)) // a changed value: an unchanged status is not written
+		if err := e.st.SetWorkloadStatus(ctx, m, 0); err != nil {
+			t.Fatalf("SetWorkloadStatus(%+v): %v", m, err)
+		}
+	}
+	var sts []*stream
+	var filters []query
+	for _, q := range sc.Queries {
+		if q.Kind == "list" && q.Acc && len(sts)+len(filters) < maxStreams {
+			filters = append(filters, query{Kind: "stream", App: q.App, Entry: q.Entry, Node: q.Node, Acc: true})
+		}
+	}
+	for k := range filters {
+		q := &filters[k]
+		sa, se, sn := q.App, q.Entry, q.Node
+		if sa == "" {
+			sa, se, sn = "zzsa", "zzse", "n1"
+		} else if se == "" {
+			se, sn = "zzse", "n1"
+		} else if sn == "" {
+			sn = "n1"
+		}
+		id := fmt.Sprintf("sentinel-%d", k)
+		w := &types.Workload{ID: id, Name: utils.MakeWorkloadName(sa, se, "s0"), Nodename: sn, Podname: "p"}
+		if err := e.st.AddWorkload(ctx, w, nil); err != nil {
+			t.Fatalf("sentinel AddWorkload: %v", err)
+		}
+		fid := fmt.Sprintf("fence-%d", k)
+		fw := &types.Workload{ID: fid, Name: utils.MakeWorkloadName(sa, se, "f0"), Nodename: sn, Podname: "p"}
+		if err := e.st.AddWorkload(ctx, fw, nil); err != nil {
+			t.Fatalf("fence AddWorkload: %v", err)
+		}
+		st := &stream{q: q, sentinel: &types.StatusMeta{ID: id, Appname: sa, Entrypoint: se, Nodename: sn, Running: true},
+			fence: &types.StatusMeta{ID: fid, Appname: sa, Entrypoint: se, Nodename: sn, Running: true}, got: map[string]bool{}}
+		st.ch = e.st.WorkloadStatusStream(ctx, q.App, q.Entry, q.Node, nil)
+		sts = append(sts, st)
+	}
+	// wait until msg for the stream's own sentinel arrives; other ids seen meanwhile are recorded
+	await := func(st *stream, record bool) {
+		deadline := time.After(20 * time.Second)
+		tick := time.NewTicker(40 * time.Millisecond)
+		defer tick.Stop()
+		target := st.sentinel
+		if record {
+			target = st.fence
+		}
+		setStatus(target)
+		for {
+			select {
+			case m, ok := <-st.ch:
+				if !ok {
+					t.Fatalf("status stream closed early (filter %+v)", st.q)
+				}
+				if m.ID == target.ID {
+					return
+				}
+				if record && !strings.HasPrefix(m.ID, "sentinel-") && !strings.HasPrefix(m.ID, "fence-") {
+					st.got[m.ID] = true
+				}
+			case <-tick.C:
+				if !record { // establishing: keep poking until the watch is there
+					setStatus(st.sentinel)
+				}
+			case <-deadline:
+				t.Fatalf("status stream never delivered its sentinel (filter %+v) adds %+v", st.q, sc.Adds)
+			}
+		}
+	}
+	for _, st := range sts {
+		await(st, false)
+	}
+	for _, a := range sc.Adds {
+		if a.OK {
+			app, entry, _, err := utils.ParseWorkloadName(utils.MakeWorkloadName(a.App, a.Entry, a.Ident)) // as Calcium.SetWorkloadsStatus does
+			if err != nil {
+				t.Fatal(err)
+			}
+			setStatus(&types.StatusMeta{ID: a.ID, Appname: app, Entrypoint: entry, Nodename: a.Node, Running: true})
+		}
+	}
+	for _, st := range sts {
+		// drain sentinel pokes still queued from the establishing phase, then fence
+		await(st, true)
+		st.q.IDs = []string{}
+		for id := range st.got {
+			st.q.IDs = append(st.q.IDs, id)
+		}
+		sort.Strings(st.q.IDs)
+		sc.Queries = append(sc.Queries, *st.q)
+	}
+	// end the watches and drain: a stream goroutine blocked on an unread channel would keep its pool worker
+	cancel()
+	for _, st := range sts {
+		for range st.ch {
+		}
+	}
+}
+
 func (sc *scenario) term(backend string) string {
 	adds := make([]string, len(sc.Adds))
 	for i, a := range sc.Adds {
@@ -198,6 +318,10 @@ func (sc *scenario) term(backend string) string {
 	}
 	qs := make([]string, len(sc.Queries))
 	for i, q := range sc.Queries {
+		if q.Kind == "stream" {
+			qs[i] = fmt.Sprintf("(QStream %s %s %s %s %s)", cstr(q.App), cstr(q.Entry), cstr(q.Node), vh.Bool(q.Acc), cstrList(q.IDs))
+			continue
+		}
 		if q.Kind == "list" {
 			obs := "None"
 			if q.Err == "" {
@@ -266,6 +390,16 @@ func allQueries(adds []add, extraApps, extraEntries []string) []query {
 		}
 	}
 	return qs
+}
+
+func nq(qs []query) int {
+	n := 0
+	for _, q := range qs {
+		if q.Kind != "stream" {
+			n++
+		}
+	}
+	return n
 }
 
 func mkAdds(triples [][3]string) []add {
@@ -356,6 +490,10 @@ func TestC24(t *testing.T) {
 		sc := &scenario{Adds: append([]add{}, adds...)}
 		sc.Queries = allQueries(sc.Adds, []string{"a", "zz"}, []string{"b"})
 		e.run(t, sc)
+		if e.name == "etcd" {
+			e.streams(t, sc, 4)
+			r.Count(fmt.Sprintf("status_streams=%d", len(sc.Queries)-nq(sc.Queries)))
+		}
 		slash, glob, underline := addsTags(sc.Adds, sc.Queries)
 		accepted := true
 		for _, a := range sc.Adds {
